@@ -13,13 +13,13 @@ ID = "C30"
 LEVEL = "exploration"
 RULE = ("model trees from four sources: read from generated Hy source (random spellings), assembled "
         "with constructors from reader-valid parts, assembled with attribute combinations only "
-        "constructors can express (any brackets / conversion / expression / is_tstring, from_parser "
-        "symbols and keywords, empty FComponent, FComponent outside an f-string), and every top-level "
+        "constructors can express (any brackets / conversion / expression / is_tstring, dotted "
+        "from_parser keywords, empty FComponent, FComponent outside an f-string), and every top-level "
         "form and distinct compound sub-form of the repository's own *.hy files; nesting <= 5. "
         "Non-trivial = the tree has >= 3 model types or an attribute-carrying node (brackets, "
         "conversion, expression, is_tstring); distinct by rendered case.")
 FLOOR = {"quick": 2000, "thorough": 2000}
-BUDGET = {"quick": 30, "thorough": 480}
+BUDGET = {"quick": 25, "thorough": 480}
 CASE_TIMEOUT = 20
 NEEDS_EVENTS = True
 ANCHORS = ["hy.core.result_macros:render_quoted_form", "hy.core.result_macros:compile_quote"]
